@@ -15,7 +15,9 @@
 
    A (the "absorbed" claim) is a sequence, parallel to O.ops, of sequences of indices into S.ops:
    A[j] lists the source operators the driver believes were compiled into the ethos-u operator j.
-   The claim is *checked* here (CustomOpBoundary), not trusted. *)
+   The claim is *checked* here (CustomOpBoundary), not trusted.
+   M ("marked") lists the source operators the compiler itself decided to keep on the CPU (run_on_npu = FALSE
+   when the passes were packed, observed at run time): such an operator can never count as absorbed. *)
 EXTENDS Integers, Sequences, FiniteSets, TLC
 
 Rng(s) == {s[p] : p \in 1..Len(s)}
@@ -54,10 +56,10 @@ SameInterface(S, O) == S.ins = O.ins /\ S.outs = O.outs
 SameOp(a, b) == /\ a.code = b.code /\ a.ver = b.ver /\ a.opts = b.opts /\ a.copt = b.copt
                 /\ a.ins = b.ins /\ a.outs = b.outs /\ a.cdat = b.cdat
 
-MustKeep(S, A) == (Live(S) \ AbsorbedAll(A)) \ Foldable(S)
+MustKeep(S, A, M) == ((Live(S) \ AbsorbedAll(A)) \ Foldable(S)) \cup (Rng(M) \cap OpIdx(S))
 KeptOnceAt(S, O, i) == Cardinality({j \in OpIdx(O) : SameOp(S.ops[i], O.ops[j])}) = 1
-KeptOnce(S, O, A) == \A i \in MustKeep(S, A) : KeptOnceAt(S, O, i)
-NotKept(S, O, A) == {i \in MustKeep(S, A) : ~KeptOnceAt(S, O, i)}
+KeptOnce(S, O, A, M) == \A i \in MustKeep(S, A, M) : KeptOnceAt(S, O, i)
+NotKept(S, O, A, M) == {i \in MustKeep(S, A, M) : ~KeptOnceAt(S, O, i)}
 
 \* an operand produced inside the output model is produced by an *earlier* operator
 OutTopo(O) ==
@@ -95,9 +97,10 @@ Failures(e) ==
     LET S == e.src
         O == e.out
         A == e.absorbed
+        M == e.marked
     IN (IF ~Reparse(e) THEN {"Reparse"} ELSE {})
   \cup (IF e.reparse_plain /\ ~SameInterface(S, O) THEN {"SameInterface"} ELSE {})
-  \cup (IF e.reparse_plain /\ ~KeptOnce(S, O, A) THEN {"KeptOnce"} ELSE {})
+  \cup (IF e.reparse_plain /\ ~KeptOnce(S, O, A, M) THEN {"KeptOnce"} ELSE {})
   \cup (IF e.reparse_plain /\ ~OutTopo(O) THEN {"OutTopo"} ELSE {})
   \cup (IF e.reparse_plain /\ ~CustomOpBoundary(S, O, A) THEN {"CustomOpBoundary"} ELSE {})
 =============================================================================
